@@ -150,6 +150,7 @@ type akRawServer struct {
 	pending  *akRawEvent                                                     // event whose akAttachments are still arriving
 	poke     chan struct{}
 	connects int
+	acks     [][2]int // ACK packets received: id, first argument
 }
 
 type akRawEvent struct {
@@ -268,6 +269,15 @@ func (rs *akRawServer) onMessage(sock eio.ServerSocket, p *parser.Packet) {
 		}
 	} else {
 		typ, natt, id, hasID, arr, ok := akParseSioText(string(p.Data))
+		if ok && (typ == '3' || typ == '6') && hasID {
+			code := -1
+			if len(arr) >= 1 {
+				if f, isNum := arr[0].(float64); isNum {
+					code = int(f)
+				}
+			}
+			rs.acks = append(rs.acks, [2]int{id, code})
+		}
 		if ok && (typ == '2' || typ == '5') && len(arr) >= 1 {
 			ev := &akRawEvent{id: id, hasID: hasID, left: natt}
 			ev.name, _ = arr[0].(string)
@@ -1084,6 +1094,183 @@ func akRunRaw(spec akRawSpec, patience time.Duration) akRawRow {
 	return row
 }
 
+// ---------------------------------------------------------------- mode rawpeer (the real socket is the ANSWERING side)
+
+type akPeerSpec struct {
+	Side  string `json:"side"`  // client: the real client answers a raw server; server: the real server answers a raw client
+	Calls int    `json:"calls"` // how often the handler calls the ack function (codes code, code+1, ...)
+	Conc  bool   `json:"conc"`  // the calls come from separate goroutines
+	Natt  int    `json:"natt"`  // attachments of the event
+	Hands int    `json:"hands"` // handlers registered for the event (each calls the ack function Calls times)
+}
+
+type akPeerRow struct {
+	Mode string     `json:"mode"`
+	Spec akPeerSpec `json:"spec"`
+	Code int        `json:"code"`
+	Seen []int      `json:"seen"` // first argument of every ACK packet the raw side received for the id
+	Ms   int64      `json:"ms"`
+	Err  string     `json:"err,omitempty"`
+}
+
+func akRunPeer(spec akPeerSpec, patience time.Duration) akPeerRow {
+	start := time.Now()
+	const seq, ackID = 3, 17
+	row := akPeerRow{Mode: "rawpeer", Spec: spec, Code: 1000 + seq, Seen: []int{}}
+	var firstMu sync.Mutex
+	first := -1
+	handler := func(h int) any {
+		return func(n int, ack func(int)) {
+			call := func(c int) {
+				firstMu.Lock()
+				if first < 0 {
+					first = 1000 + seq + c + 10*h
+				}
+				firstMu.Unlock()
+				ack(1000 + seq + c + 10*h)
+			}
+			for c := 0; c < spec.Calls; c++ {
+				if spec.Conc {
+					go call(c)
+				} else {
+					call(c)
+				}
+			}
+		}
+	}
+	eventText := fmt.Sprintf("2%d[\"pe\",%d]", ackID, seq)
+	var seen func() []int
+	if spec.Side == "client" {
+		rs, err := akNewRawServer(nil)
+		if err != nil {
+			row.Err = err.Error()
+			return row
+		}
+		defer rs.close()
+		manager := sio.NewManager(rs.ts.URL, &sio.ManagerConfig{EIO: akWsOnly(), NoReconnection: true})
+		socket := manager.Socket("/", nil)
+		defer manager.Close()
+		for h := 0; h < spec.Hands; h++ {
+			socket.OnEvent("pe", handler(h))
+		}
+		connected := make(chan struct{}, 1)
+		socket.OnConnect(func() {
+			select {
+			case connected <- struct{}{}:
+			default:
+			}
+		})
+		socket.Connect()
+		select {
+		case <-connected:
+		case <-time.After(patience + 3*time.Second):
+			row.Err = "no connection"
+			return row
+		}
+		rs.mu.Lock()
+		sock := rs.sock
+		rs.mu.Unlock()
+		akSendText(sock, eventText)
+		seen = func() []int {
+			rs.mu.Lock()
+			defer rs.mu.Unlock()
+			out := []int{}
+			for _, a := range rs.acks {
+				if a[0] == ackID {
+					out = append(out, a[1])
+				}
+			}
+			return out
+		}
+	} else {
+		srv := sio.NewServer(&sio.ServerConfig{})
+		if err := srv.Run(); err != nil {
+			row.Err = err.Error()
+			return row
+		}
+		ts := httptest.NewServer(srv)
+		defer func() {
+			srv.Close()
+			ts.Close()
+		}()
+		up := make(chan struct{}, 1)
+		srv.OnConnection(func(s sio.ServerSocket) {
+			for h := 0; h < spec.Hands; h++ {
+				s.OnEvent("pe", handler(h))
+			}
+			up <- struct{}{}
+		})
+		var (
+			cmu  sync.Mutex
+			acks []int
+		)
+		cb := &eio.Callbacks{OnPacket: func(packets ...*parser.Packet) {
+			for _, p := range packets {
+				if p.Type != parser.PacketTypeMessage || p.IsBinary {
+					continue
+				}
+				typ, _, id, hasID, arr, ok := akParseSioText(string(p.Data))
+				if ok && typ == '3' && hasID && id == ackID && len(arr) >= 1 {
+					if f, isNum := arr[0].(float64); isNum {
+						cmu.Lock()
+						acks = append(acks, int(f))
+						cmu.Unlock()
+					}
+				}
+			}
+		}}
+		cs, err := eio.Dial(ts.URL+"/socket.io/", cb, &eio.ClientConfig{Transports: []string{"websocket"}})
+		if err != nil {
+			row.Err = "dial: " + err.Error()
+			return row
+		}
+		defer cs.Close()
+		akSendText(cs, "0")
+		select {
+		case <-up:
+		case <-time.After(patience + 3*time.Second):
+			row.Err = "no connection"
+			return row
+		}
+		time.Sleep(5 * time.Millisecond)
+		akSendText(cs, eventText)
+		seen = func() []int {
+			cmu.Lock()
+			defer cmu.Unlock()
+			return append([]int{}, acks...)
+		}
+	}
+	deadline := time.Now().Add(patience + time.Second)
+	for time.Now().Before(deadline) && len(seen()) == 0 {
+		time.Sleep(2 * time.Millisecond)
+	}
+	time.Sleep(50 * time.Millisecond) // a second ACK packet would follow at once
+	row.Seen = seen()
+	firstMu.Lock()
+	if !spec.Conc && spec.Hands == 1 {
+		row.Code = 1000 + seq
+	} else if first >= 0 {
+		row.Code = -1 // several callers race: any one of their values may be the first
+	}
+	firstMu.Unlock()
+	row.Ms = time.Since(start).Milliseconds()
+	return row
+}
+
+func akPeerSpecs() []akPeerSpec {
+	var out []akPeerSpec
+	for _, side := range []string{"client", "server"} {
+		for calls := 1; calls <= 3; calls++ {
+			for _, conc := range []bool{false, true} {
+				for hands := 1; hands <= 2; hands++ {
+					out = append(out, akPeerSpec{Side: side, Calls: calls, Conc: conc, Hands: hands})
+				}
+			}
+		}
+	}
+	return out
+}
+
 // ---------------------------------------------------------------- driver
 
 func akParallel(n, workers int, f func(i int)) {
@@ -1293,6 +1480,20 @@ func acksMain(args []string) error {
 		}
 		rows := make([]akRawRow, len(specs))
 		akParallel(len(specs), *workers, func(i int) { rows[i] = akRunRaw(specs[i], patience) })
+		for _, row := range rows {
+			out.Put(row)
+		}
+	case "rawpeer":
+		var specs []akPeerSpec
+		if *only != "" {
+			if err := json.Unmarshal([]byte(*only), &specs); err != nil {
+				return err
+			}
+		} else {
+			specs = akPeerSpecs()
+		}
+		rows := make([]akPeerRow, len(specs))
+		akParallel(len(specs), *workers, func(i int) { rows[i] = akRunPeer(specs[i], patience) })
 		for _, row := range rows {
 			out.Put(row)
 		}
